@@ -352,7 +352,7 @@ class SupervisoryEnhancedControlField(EnhancedControlField):
                 (
                     self.frame_type
                     | (self.supervision_function << 2)
-                    | self.poll << 7
+                    | (self.poll << 4)
                     | (self.final << 7)
                 ),
                 self.req_seq,
@@ -979,7 +979,8 @@ class EnhancedRetransmissionProcessor(Processor):
         self._num_receiver_ready_polls_sent += 1
         self._send_s_frame(
             supervision_function=SupervisoryEnhancedControlField.SupervisoryFunction.RR,
-            final=1,
+            final=0,
+            poll=1,
         )
 
     def _get_next_tx_seq(self) -> int:
@@ -1100,11 +1101,13 @@ class EnhancedRetransmissionProcessor(Processor):
         self,
         supervision_function: SupervisoryEnhancedControlField.SupervisoryFunction,
         final: int,
+        poll: int = 0,
     ) -> None:
         self.channel.send_pdu(
             SupervisoryEnhancedControlField(
                 supervision_function=supervision_function,
                 final=final,
+                poll=poll,
                 req_seq=self._req_seq_num,
             )
         )
